@@ -75,6 +75,16 @@ func (s *JavaRefactorListener) EnterInterfaceDeclaration(ctx *InterfaceDeclarati
 	node.Name = ctx.Identifier().GetText()
 }
 
+func (s *JavaRefactorListener) EnterEnumDeclaration(ctx *EnumDeclarationContext) {
+	node.Type = "Enum"
+	node.Name = ctx.Identifier().GetText()
+}
+
+func (s *JavaRefactorListener) EnterAnnotationTypeDeclaration(ctx *AnnotationTypeDeclarationContext) {
+	node.Type = "Annotation"
+	node.Name = ctx.Identifier().GetText()
+}
+
 func (s *JavaRefactorListener) EnterTypeType(ctx *TypeTypeContext) {
 	startLine := ctx.GetStart().GetLine()
 	stopLine := ctx.GetStop().GetLine()
